@@ -407,7 +407,7 @@ class AdvancedHTMLParser(HTMLParser):
 
         # Check if we need to match against any other names
         if len(classNames) > 0:
-            elements = [ em for em in elements for matchClassName in classNames  if matchClassName in em.classList ]
+            elements = [ em for em in elements if all(matchClassName in em.classList for matchClassName in classNames) ]
 
         return TagCollection(elements)
 
